@@ -13,6 +13,9 @@ pub open spec fn abs_int(v: int) -> int { if v >= 0 { v } else { -v } }
 pub assume_specification [i32::abs] (x: i32) -> (r: i32)
     requires x != i32::MIN      // i32::MIN.abs() overflows (panic in debug builds, wrap in release builds)
     ensures r == abs_int(x as int);
+// not used by the pinned text; a change that introduces it (seed C16-6) is then decided instead of ending as `unsupported construct`
+pub assume_specification [i32::unsigned_abs] (x: i32) -> (r: u32)
+    ensures r == (if x >= 0 { x as int } else { -(x as int) });
 pub assume_specification [i32::saturating_abs] (x: i32) -> (r: i32)
     ensures r == (if x == i32::MIN { i32::MAX as int } else { abs_int(x as int) });
 
